@@ -258,8 +258,41 @@ def check_stable_solve(run, A):
     run.check(bool(first), 'LOOP', 'stable_solve: batched solve is tried first', fn.loc(), '', 'no batched np.linalg.solve outside the loop', construct=f'LOOP::{q}::fast-path')
 
 
+def check_explicit_reference(run, A):
+    """an explicit reference channel is honoured - also channel 0: the SNR-based automatic choice runs only under `<param> is None`
+    (a truthiness test sends channel 0 down the automatic path)"""
+    from ..walk import none_test, cond_polarity
+    auto = B + 'get_optimal_reference_channel'
+    n = 0
+    for fn in A.prog.all_funcs():
+        if fn.mod.name != 'pb_bss.extraction.beamformer':
+            continue
+        rp = [p for p in fn.params if p in ('ref_channel', 'reference_channel')]
+        if not rp or fn.qual == auto:
+            continue
+        g = A.graphs.get(fn)
+        for e in g.events:
+            if e.kind != 'call' or call_parts(e.term)[0] != auto:
+                continue
+            n += 1
+            ok, why = False, 'the automatic choice of the reference channel is not guarded by the reference-channel parameter at all'
+            for c, pol in e.guards:
+                x, is_none = none_test(c, pol)
+                if x is not None and x.op == 'param' and x.args[0] in rp:
+                    ok, why = bool(is_none), '' if is_none else 'the automatic choice runs when a channel IS given'
+                    break
+                c0, p0 = cond_polarity(c, pol)
+                if strip_views(c0).op == 'param' and strip_views(c0).args[0] in rp:
+                    ok, why = False, f'truthiness test of `{rp[0]}`: an explicit channel 0 is falsy and is replaced by the automatic choice'
+                    break
+            run.check(ok, 'R-DISPATCH', f'{fn.name}: automatic reference channel only when none is given', fn.loc(e.node), f'guarded by `{rp[0]} is None`', why,
+                      construct=f'R-DISPATCH::{fn.qual}::explicit-reference')
+    run.floor('automatic reference-channel selections', n, 2)
+
+
 def check(run):
     A = run.A
+    check_explicit_reference(run, A)
     run.explanation = (
         'get_bf_vector is specialised on each of the names it accepts (constant propagation through endswith / slicing / split / `in` tests prunes the if-chain); the primitives '
         'called on the surviving path, their order, the argument slots they are chained through and the returned value are compared with the composition the name spells. '
